@@ -234,8 +234,9 @@ class MTSPEnv(RL4COEnvBase):
 
         # With distance, same as TSP
         elif self.cost_type == "sum":
-            locs = td["locs"]
-            locs_ordered = locs.gather(1, actions.unsqueeze(-1).expand_as(locs))
+            # every sub-tour starts and ends at the depot (node 0): depot -> actions -> depot
+            go_from = torch.cat((torch.zeros_like(actions[:, :1]), actions), dim=1)
+            locs_ordered = gather_by_index(td["locs"], go_from)
             return -get_tour_length(locs_ordered)
 
         else:
